@@ -572,6 +572,34 @@ def run(prop, tier, seed):
                 binary = dict(scenarios=len(bscs), requests=sum(1 for e in bevents if e["ev"] == "Respond"), releases=sum(1 for e in bevents if e["ev"] == "Release"),
                               restarts=sum(1 for e in bevents if e["ev"] == "Restart"))
                 remote_lookup = {sid_: v for sid_, v in bmeta.items()}
+        # "over its whole lifetime ... restarts in between": a restart that does not wait for the old process - a SECOND process of the
+        # program started on the same directories while the first still serves.  If it comes up at all, what the two processes sign
+        # for one key is still one key's history: the second of a conflicting pair is sent to the new process, the first to the old one
+        ov_scs = []
+        if prop in ("C01", "C02"):
+            conc0 = concs[0][1]
+            def pair_(i_):
+                if prop == "C02":
+                    return ("prop", [dict(k=0, slot=1, root="A")], [dict(k=0, slot=2 + i_ % 2, root="A")], [dict(k=0, slot=2 + i_ % 2, root="B")])
+                return ("att", [dict(k=0, s=0, t=1, root="A")], [dict(k=0, s=1, t=3, root="A")], [[dict(k=0, s=1, t=3, root="B")], [dict(k=0, s=2, t=2 + 0, root="B")]][0])
+            for oi in range(2 if tier == "quick" else 6):
+                kd_, e0_, e1_, e2_ = pair_(oi)
+                ops_ = [dict(id="o0", kind=kd_, ents=e0_), dict(id="ov", kind="overlap"), dict(id="o1", kind=kd_, ents=e1_), dict(id="o2", kind=kd_, ents=e2_, alt=True),
+                        dict(id="o3", kind=kd_, ents=e1_ if oi % 2 else e2_)]
+                ov_scs.append(dict(id="%s-overlap-%d-bin" % (prop, oi), world=dict(nkeys=2), conc=conc0, ops=ops_))
+            oev, orc, oerr = run_driver_parallel_bin(ov_scs, wd, build_dirk(), nproc=2)
+            if orc != 0:
+                raise Inconclusive("overlapping processes on one directory: driver exited %s: %s" % (orc, oerr[-300:]))
+            oby = split_scenarios(oev)
+            for sc_ in ov_scs:
+                evs_ = oby.get(sc_["id"])
+                if not evs_ or not any(e["ev"] == "Overlap" for e in evs_):
+                    raise Inconclusive("overlapping processes: %s did not reach the start of the second process" % sc_["id"])
+                start = len(lines) + 1
+                project_one(sc_["id"], {}, [], evs_, lines)
+                index.append((start, len(lines), sc_["id"]))
+                nreq += sum(1 for e in evs_ if e["ev"] == "Respond")
+            nsc += len(ov_scs)
         # generic BATCHES (Multisign) whose entries carry different domain types: every ordered pair of domain classes in one request,
         # so that a verdict taken for one position cannot stand in for another
         mix_scs = []
@@ -798,7 +826,7 @@ def run(prop, tier, seed):
                 for s in b.scenarios:
                     if s["id"] == sid:
                         sc, smeta, sfloors = s, b.meta[sid], b.expect[sid]["floors"]
-            for s in race_scs + fault_scs + dup_scs + mixep_scs + mix_scs + (par_scs if prop in ('C01', 'C02') else []) + (overlap_scs if prop == "C09" else []):
+            for s in race_scs + fault_scs + dup_scs + mixep_scs + ov_scs + mix_scs + (par_scs if prop in ('C01', 'C02') else []) + (overlap_scs if prop == "C09" else []):
                 if s["id"] == sid:
                     sc, smeta, sfloors = s, {}, []
             if binary and sid in remote_lookup:
